@@ -63,7 +63,15 @@ def mask_entries(ctx):
 
 
 def correspondence(ctx):
-    gen = torch.Generator().manual_seed(ctx.seed * 3001 + 7)
+    """thorough tier: several independent generator seeds (the quick tier runs one)"""
+    for rep in range(1 if ctx.quick() else 6):
+        _correspondence_once(ctx, rep)
+        if ctx.elapsed() > 1500:
+            break
+
+
+def _correspondence_once(ctx, rep=0):
+    gen = torch.Generator().manual_seed(ctx.seed * 3001 + 7 + 104729 * rep)
     jobs = []
     for e in mask_entries(ctx):
         t = tcorr.build(e, gen, torch.float64, 'normal')
